@@ -301,7 +301,7 @@ def make_jobs(tier, seed, build):
     nmax = 3 if tier == "quick" else 4
     for gname in GRAMMARS:
         g = CORPUS[gname]
-        for shape in tok.all_shapes_by_words(nmax, g.decl):
+        for shape in tok.all_shapes_by_words(nmax, g.decl, full_upto=3):
             jobs.append({"id": "run:%s:%s" % (gname, ",".join(shape)), "kind": "run", "grammar": gname, "shape": shape})
     return jobs
 
@@ -347,7 +347,7 @@ def finish(results, jobs, build, out, tier, seed, wall):
         "queries": {"total": st["queries"], "sat": st["sat"], "unsat": st["unsat"], "unknown": st["unknown"]},
         "solver_time_s": st["solver_s"],
         "outcome_classes": fw.merge_counts(results, "classes"),
-        "bounds": {"argv_words": "0..=%d" % nmax, "grammars": GRAMMARS},
+        "bounds": {"largest_size": (tok.REDUCED_NOTE if tier != "quick" else "all forms"), "argv_words": "0..=%d" % nmax, "grammars": GRAMMARS},
         "jobs": len(jobs),
         "functions_encoded": sorted(fw.merge_counts(results, "fn_hits")),
         "models_used": fw.merge_counts(results, "models_used"),
